@@ -25,6 +25,10 @@ func checkC14(r *Run) {
 	ruleA13(r, p, map[string]bool{"": true}, "c")
 	ruleMultiAlwaysWraps(r, p)
 	ruleMultiKeepsEveryWriter(r, p, "FANOUT")
+	ruleNewKeepsItsWriter(r, p, "FANOUT")
+	if dw := p.Method("diode", "Writer", "Write"); dw != nil {
+		ruleCopyBeforePublish(r, p, dw) // a diode among the destinations keeps its own copy: it delivers the bytes its siblings got (C10's rule)
+	}
 	// a destination that keeps a rejected event's text in a pooled buffer prepends it to the next,
 	// healthy event ("subsequent events are complete and unaffected")
 	ruleBufferPoolClean(r, p, []string{""})
